@@ -198,19 +198,63 @@ fn c01_oracles(plan: &Plan) -> Vec<Box<dyn Oracle>> {
     with_states(vec![Box::new(TransportOracle::new("C01", TransportClauses { order: true, ..Default::default() }, plan))])
 }
 
+/// One very long stream (a little more than 2^20 packets) on a clean link: copies of its first
+/// frames come back when the packet ids have gone once round.
+fn c01_gen_cycle(seed: u64, run: u64, _thorough: bool) -> Plan {
+    let mut r = Rng::keyed(&[seed, run, 0xc01c]);
+    let mut plan = Plan::new("C01", "a_id_cycle", seed, run);
+    plan.fate_seed = Some(crate::rng::key(&[seed, run, 0xfa7e]));
+    let mut setup = ASetup::default_like();
+    setup.packet_base = [r.u32() & 0xFFFFF, r.u32() & 0xFFFFF];
+    setup.frame_base = [r.u32(), r.u32()];
+    for i in 0..2 {
+        setup.bandwidth[i] = 400_000_000;
+        setup.alloc[i] = 4_000_000;
+    }
+    plan.endpoints = setup.endpoints();
+    plan.push(0, 0, Op::Create { ep: 0 });
+    plan.push(0, 1, Op::Create { ep: 1 });
+    plan.push(0, 2, Op::Link { from: None, to: None, rule: clean_rule(r.range(100, 600)) });
+    let total: u32 = (1 << 20) + 8000;
+    let burst = 16_384u32;
+    let mut tag = 0u32;
+    let mut t = 1000u64;
+    while tag < total {
+        let n = burst.min(total - tag);
+        plan.push(t, 0x4000_0000 + tag, Op::SendBurst { ep: 0, to: None, len: *r.pick(&[12u32, 12, 13, 16]), tag, count: n });
+        tag += n;
+        t += 15_000;
+    }
+    let horizon = t + 20_000_000;
+    plan.push(0, 3, Op::Mark { name: "heal".into() });
+    plan.params.insert("end_when_quiescent".into(), 1.0);
+    let period = r.range(500, 2000);
+    plan.push(500, 3, Op::StepEvery { ep: 0, period_us: period, until_us: horizon });
+    plan.push(700, 3, Op::StepEvery { ep: 1, period_us: period, until_us: horizon });
+    plan.adversary = "cycle_replayer".into();
+    plan.end_us = horizon;
+    plan.sort();
+    plan
+}
+fn c01_adv_cycle(plan: &Plan) -> Option<Box<dyn Adversary>> {
+    Some(Box::new(crate::adversary::CycleReplayer::new(plan, 0, 1)))
+}
+
 pub fn c01() -> CheckDef {
     CheckDef {
         property: "C01",
         families: vec![
-            Family { name: "a_mixed", world: "A", weight: 4, gen: c01_gen_mixed, oracles: c01_oracles, adversary: None, keep_workload: false, custom: None,
+            Family { name: "a_id_cycle", world: "A", weight: 1, gen: c01_gen_cycle, oracles: c01_oracles, adversary: Some(c01_adv_cycle), keep_workload: true, custom: None,
+                what: "one stream of 2^20 + 8000 small packets (all modes but TimeSensitive, 4 channels) on a clean link; copies of its first 120 data frames are delivered again when the receiver's packet window has come once round the 20-bit id space (one run in 3001: three per quick tier)" },
+            Family { name: "a_mixed", world: "A", weight: 800, gen: c01_gen_mixed, oracles: c01_oracles, adversary: None, keep_workload: false, custom: None,
                 what: "two half connections, both directions, all modes, up to 64 channels, drop/dup/reorder/1-4 bit flips/blackouts/type-targeted loss in phases, random cadences and stalls" },
-            Family { name: "a_wrap", world: "A", weight: 3, gen: c01_gen_wrap, oracles: c01_oracles, adversary: None, keep_workload: false, custom: None,
+            Family { name: "a_wrap", world: "A", weight: 600, gen: c01_gen_wrap, oracles: c01_oracles, adversary: None, keep_workload: false, custom: None,
                 what: "same, initial frame and packet ids within two windows of the 2^32 / 2^20 wrap-around and enough traffic to cross it" },
-            Family { name: "a_small_windows", world: "A", weight: 3, gen: c01_gen_small, oracles: c01_oracles, adversary: None, keep_workload: false, custom: None,
+            Family { name: "a_small_windows", world: "A", weight: 600, gen: c01_gen_small, oracles: c01_oracles, adversary: None, keep_workload: false, custom: None,
                 what: "same, window sizes 1..64 so that windows fill and resynchronise constantly" },
-            Family { name: "a_window_edge", world: "A", weight: 3, gen: c01_gen_edge, oracles: c01_oracles, adversary: None, keep_workload: false, custom: None,
+            Family { name: "a_window_edge", world: "A", weight: 600, gen: c01_gen_edge, oracles: c01_oracles, adversary: None, keep_workload: false, custom: None,
                 what: "packet windows of 2-16, two or three channels, mostly Persistent/Reliable packets, 10-30 % loss: the window is full most of the time and channels deliver and skip around a missing Reliable packet" },
-            Family { name: "b_mixed", world: "B", weight: 2, gen: c01_gen_b, oracles: c01_oracles, adversary: None, keep_workload: false, custom: None,
+            Family { name: "b_mixed", world: "B", weight: 400, gen: c01_gen_b, oracles: c01_oracles, adversary: None, keep_workload: false, custom: None,
                 what: "real Client/Server over the simulated socket, 1-3 clients, both directions, default windows, handshake nonces steered to within 6000 of the 2^32 / 2^20 wrap-around in half of the runs, drop/dup/reorder/flips" },
         ],
         panic_is_violation: no_panics,
